@@ -893,7 +893,7 @@ func runC08(c *Ctx) {
 	c.Rule("C08.T", "self-test of the interval transfer functions", 6)
 	c08SelfTest(c, p)
 
-	c.Rule("C08.E", "a failed list call is reported as an error (so that it is backed off): non-200 replies and transport errors never yield a nil error", 4)
+	c.Rule("C08.E", "a failed list call is reported as an error (so that it is backed off): non-200 replies and transport errors never yield a nil error", 6)
 	c08ErrorClassification(c, p)
 	fn := c.need(p, "C08.I", "agent/utils.ExponentialBackoffDuration")
 	if fn != nil {
@@ -1444,7 +1444,7 @@ func c08Loop(c *Ctx, p *Prog) {
 	bo := CallResult(delayArg, 0, ModPath+"/agent/utils.ExponentialBackoffDuration")
 	var phi *ssa.Phi
 	if bo != nil {
-		phi, _ = PArgs(&bo.Call)[0].(*ssa.Phi)
+		phi, _ = Peel(PArgs(&bo.Call)[0]).(*ssa.Phi) // through the parameter of a new wait helper
 	}
 	c.Check("C08.L", "sleep:duration-is-backoff-of-counter", p, sleep.Pos(), bo != nil && phi != nil, "time.Sleep(ExponentialBackoffDuration(<loop-carried counter>))", "the sleep duration is not ExponentialBackoffDuration(<loop-carried counter>): "+PathOf(delayArg))
 	if phi == nil {
@@ -1484,7 +1484,7 @@ func c08Loop(c *Ctx, p *Prog) {
 			}
 		}
 	}
-	c.Check("C08.L", "failure-arm:always-sleeps", p, sleep.Pos(), okArm && hit == nil && (failBlk == sleep.Block() || failBlk.Dominates(sleep.Block())), "every path from a failed list call back to the loop head passes the sleep", "a path from the failed list call returns to the loop head without sleeping ("+PathString(p, path)+"): the agent busy-loops against a failing proxy")
+	c.Check("C08.L", "failure-arm:always-sleeps", p, sleep.Pos(), okArm && hit == nil && (failBlk == sleep.Block() || (sleep.Parent() == f && failBlk.Dominates(sleep.Block())) || (sleep.Parent() != f && len(failBlk.Instrs) > 0 && Dominates(failBlk.Instrs[0], sleep))), "every path from a failed list call back to the loop head passes the sleep", "a path from the failed list call returns to the loop head without sleeping ("+PathString(p, path)+"): the agent busy-loops against a failing proxy")
 	// the sleep is not in an inner loop / not skipped by the success arm: it must not be reachable from the success arm without passing the loop head
 	// phi edges
 	okInc, okReset, okInit := true, true, true
@@ -1551,6 +1551,55 @@ func c08SelfTest(c *Ctx, p *Prog) {
 // ListPendingRequests returns an error, so every failure of the list call
 // must surface as one.
 func c08ErrorClassification(c *Ctx, p *Prog) {
+	// an error that one of the steps of the list call produced (round trip, reading the reply,
+	// decoding it) is never answered with success: no return with a nil error sits in the
+	// branch where such an error is non-nil
+	for _, name := range []string{"agent/utils.parseRequestIDs", "agent/utils.ListPendingRequests"} {
+		f := p.Func(name)
+		if f == nil {
+			continue
+		}
+		bad := ""
+		n := 0
+		EachInstr(f, func(i ssa.Instruction) {
+			ifi, ok := i.(*ssa.If)
+			if !ok {
+				return
+			}
+			v, succ, ok := ErrNilTest(ifi)
+			if !ok {
+				return
+			}
+			isStep := false
+			for _, r := range Roots(v) {
+				if e, isE := r.(*ssa.Extract); isE {
+					if _, isCall := e.Tuple.(*ssa.Call); isCall {
+						isStep = true
+					}
+				}
+				if _, isCall := r.(*ssa.Call); isCall {
+					isStep = true
+				}
+			}
+			if !isStep {
+				return
+			}
+			n++
+			blk := ifi.Block().Succs[succ]
+			if len(blk.Preds) != 1 {
+				return
+			}
+			for _, r := range Returns(ifi.Parent()) {
+				if len(r.Results) < 1 || !(r.Block() == blk || blk.Dominates(r.Block())) {
+					continue
+				}
+				if IsNilConst(ReturnValue(r, len(r.Results)-1)) {
+					bad = fmt.Sprintf("%s returns a nil error at %s, inside the branch where the error tested at %s is non-nil", FuncName(ifi.Parent()), p.Pos(r.Pos()), p.Pos(ifi.Pos()))
+				}
+			}
+		})
+		c.Check("C08.E", name+":a-failed-step-is-a-failure", p, f.Pos(), bad == "" && n > 0, fmt.Sprintf("%d error tests of the call's steps: none of their failure branches returns success", n), bad+": a list call that failed (a reply cut short, a reset connection) is reported as an empty list, so the polling loop resets its counter and polls again at once for as long as the fault lasts")
+	}
 	if f := c.need(p, "C08.E", "agent/utils.parseRequestIDs"); f != nil {
 		nilErrReturn := func(i ssa.Instruction) bool {
 			r, ok := i.(*ssa.Return)
